@@ -156,6 +156,31 @@ def check_desc(res, model, desc, rng, tag, channel_b=False):
             if got != want:
                 res.violation("oracle", f"GetElementAbund({el}) evaluates to {got}, count-weighted sum is {want}", case)
                 break
+        # correspondence: the helper statements against Model.Physics (text of every element branch, mantle terms)
+        if model is not None:
+            hs = [[sp.alias, [[k, int(v)] for k, v in sp.element_count.items()], bool(sp.is_surface)] for sp in a.species]
+            els = [next(iter(e.element_count.keys())) for e in net.elements]
+            rep = model.call("phys.helpers", hs, els)
+            if rep and rep[0] == "error":
+                res.violation("correspondence", f"model rejected the helper request: {rep}", case)
+            else:
+                melems, mmantle = rep
+                ws = lambda t: " ".join(t.split())
+                for el, text, terms in melems:
+                    got_txt = found.get(el)
+                    if got_txt is None or ws("return " + got_txt + ";") != ws(text):
+                        res.corr_disagreements += 1
+                        res.violation("correspondence", f"GetElementAbund({el}): rendered {ws('return ' + (got_txt or '<missing>') + ';')!r} vs model {ws(text)!r}", case)
+                        break
+                if sorted(found) != sorted(e for e, _, _ in melems):
+                    res.corr_disagreements += 1
+                    res.violation("correspondence", f"GetElementAbund branches {sorted(found)} vs model {sorted(e for e, _, _ in melems)}", case)
+                mm = re.search(r"double GetMantleDens\(double \*y\) \{\s*return (.*?);", src, re.S)
+                want_m = " + ".join(f"y[IDX_{a.species[int(i)].alias}]" for i in mmantle) + " + 0.0"   # '+ 0.0' alone when there is no ice
+                if mm is None or ws(mm.group(1)) != ws(want_m):
+                    res.corr_disagreements += 1
+                    res.violation("correspondence", f"GetMantleDens: rendered {ws(mm.group(1)) if mm else None!r} vs model {want_m!r}", case)
+                res.count("helper statements compared with the model", len(melems) + 1)
         atoms = {s.name for s in a.species if s.name in ELEMENTS}
         if set(found) != atoms:
             res.violation("oracle", f"GetElementAbund handles {sorted(found)} but the atomic species are {sorted(atoms)}", case)
